@@ -6,6 +6,14 @@ namespace TW
 
 def spaces (n : Nat) : Text := List.replicate n SP
 
+/-- the `for line_no in 0..lines_per_column` loop: all rows, or `none` if one panics -/
+def collectRows (f : Nat → Option Text) : List Nat → Option (List Text)
+  | [] => some []
+  | r :: rs =>
+    match f r, collectRows f rs with
+    | some row, some rest => some (row :: rest)
+    | _, _ => none
+
 section
 variable {α : Type} [CostNum α]
 
@@ -37,10 +45,9 @@ def wrapColumns (env : Env) (mo : MinimaOracle α) (o : Opts) (text : Text) (col
     | some wrapped =>
       let n := wrapped.length
       let linesPerColumn := n / columns + (if n % columns > 0 then 1 else 0)
-      (List.range linesPerColumn).foldr (fun lineNo acc =>
-        match columnsRow env.cw wrapped columns columnWidth linesPerColumn middle lastPad lineNo columns 0, acc with
-        | some row, some rest => some ((left ++ row ++ right) :: rest)
-        | _, _ => none) (some [])
+      collectRows (fun lineNo =>
+        (columnsRow env.cw wrapped columns columnWidth linesPerColumn middle lastPad lineNo columns 0).map
+          fun row => left ++ row ++ right) (List.range linesPerColumn)
 
 end
 end TW
